@@ -147,6 +147,9 @@ def module_case(arg):
                     feats["has_" + v] = feats.get("has_" + v, 0) + 1
             if diffs:
                 mech = cppsuite.classify_obs_diffs(m, s, diffs)
+                if mech.startswith("observation-differs") and cppsuite.explained_by_ignored_requires(
+                        cppsuite.constant_virtual_with_failing_requires(m, s, params, data), diffs):
+                    mech = "requires-on-constant-virtual-field-ignored"
                 out["viol"].append({"mech": mech, "what": "struct %s params %r bytes %s: %s" % (
                     s.name, params, data.hex(), "; ".join("%s expected %s got %s" % d for d in diffs[:5])),
                     "coords": gm["coords"], "struct": s.name, "params": params, "data": data.hex(),
